@@ -104,7 +104,8 @@ def formulas(k, with_repeats=True):
 
 
 # ------------------------------------------------------------------ programs
-FORMS = ("match_events", "await_flows", "when_events", "when_flows", "start_match_flows", "await_actions")
+FORMS = ("match_events", "await_flows", "when_events", "when_flows", "start_match_flows", "await_actions",
+         "await_flows_cancel", "when_flows_cancel")
 
 
 def program(t, form):
@@ -122,6 +123,15 @@ def program(t, form):
     if form == "when_flows":
         g = show(t, lambda i: f"f{i}")
         return flows + f"flow main\n  when {g}\n    send Marker()\n  match Done()\n"
+    if form in ("await_flows_cancel", "when_flows_cancel"):
+        # member flows can also FAIL (stopped from outside): a failed flow never delivers its Finished event.
+        # The group lives in a flow of its own so that its failure does not restart the main flow.
+        g = show(t, lambda i: f"f{i}")
+        if form == "await_flows_cancel":
+            body = f"  await {g}\n  send Marker()\n  match Done()\n"
+        else:
+            body = f"  when {g}\n    send Marker()\n  match Done()\n"
+        return flows + "flow grp\n" + body + "\nflow main\n  start grp\n  match Done()\n"
     if form == "start_match_flows":
         # explicit start + match on the references' Finished events
         starts = "".join(f"  start f{i} as $r{i}\n" for i in lv)
@@ -142,6 +152,9 @@ def explore(task):
         return explore_actions(t, src, lv, depth_extra)
     names = [(f"E{i}", {}) for i in lv] + [("X", {})]
     fixed = [("ext", n, a) for n, a in names]
+    cancel = form.endswith("_cancel")
+    if cancel:
+        fixed += [("internal", "StopFlow", {"flow_id": f"f{i}"}) for i in lv]
 
     def alphabet(state, node):
         if node.depth == 0:
@@ -150,11 +163,21 @@ def explore(task):
 
     def monitor(ex, prev, aev, conc, taken, nxt, pops):
         recv = set(prev.aux.get("recv", ()))
+        dead = set(prev.aux.get("dead", ()))
         before = evaluate(t, recv)
         if aev[0] == "ext" and aev[1].startswith("E"):
-            recv.add(int(aev[1][1:]))
+            i = int(aev[1][1:])
+            if i not in dead:
+                recv.add(i)
+        elif aev[0] == "internal":
+            i = int(aev[2]["flow_id"][1:])
+            if i not in recv:
+                dead.add(i)  # this flow failed before finishing: its Finished event can never come
+                ex.stats.bump("member_flow_failures")
         after = evaluate(t, recv)
         nxt.aux["recv"] = tuple(sorted(recv))
+        if dead:
+            nxt.aux["dead"] = tuple(sorted(dead))
         n_marker = sum(1 for e in nxt.state.outgoing_events if e["type"] == "Marker")
         expect = 1 if (after and not before) else 0
         total = prev.aux.get("markers", 0) + n_marker
@@ -186,7 +209,7 @@ def explore(task):
         src,
         alphabet,
         monitors=[monitor, monitor_after] + _c09(),
-        depth=1 + len(lv) + 2 + depth_extra,
+        depth=1 + len(lv) + 2 + depth_extra + (1 if cancel else 0),
         stop_expand=stop_expand,
     )
     ex.run()
